@@ -54,8 +54,21 @@ where
         Ok(s)
     }
 
-    pub(crate) fn read_exact(&mut self, buffer: &mut [u8]) -> Result<()> {
-        self.input.read_exact(buffer).map_err(to_ase)
+    /// Reads exactly `count` bytes. Memory use is proportional to the number
+    /// of bytes actually available, not to `count`.
+    pub(crate) fn read_vec(&mut self, count: usize) -> Result<Vec<u8>> {
+        let mut data = Vec::new();
+        (&mut self.input)
+            .take(count as u64)
+            .read_to_end(&mut data)?;
+        if data.len() != count {
+            return Err(std::io::Error::new(
+                std::io::ErrorKind::UnexpectedEof,
+                "failed to fill whole buffer",
+            )
+            .into());
+        }
+        Ok(data)
     }
 
     pub(crate) fn skip_reserved(&mut self, count: usize) -> Result<()> {
